@@ -113,3 +113,16 @@ func (b *SQLiteBackend) VerifClose() error {
 	defer b.mu.Unlock()
 	return b.conn.Close()
 }
+
+// VerifCacheReadConn exposes the deduplication-cache read connection (to
+// install a statement tracer).
+func (l *Log) VerifCacheReadConn() *sqlite.Conn { return l.cacheRead }
+
+// VerifPoolMuHeld reports whether poolMu is currently held.
+func (l *Log) VerifPoolMuHeld() bool {
+	if !l.poolMu.TryLock() {
+		return true
+	}
+	l.poolMu.Unlock()
+	return false
+}
